@@ -3,6 +3,8 @@ from .. import gen, hist
 
 
 class Runner(hist.HistoryRunner):
+    own_prop = "C11"
+    claims = ('mwrite-gen', 'mwrite-user', 'mwrite-new', 'mreplace-gen', 'mreplace-user', 'mreplace-new', 'mremove')
     pass
 
 
